@@ -563,7 +563,7 @@ Fixpoint fs_non_spaces (fuel : nat) (double : bool) (start : mark) (chunks : str
             h <- prefix len ;;
             let code := hex_value h in
             if (1114111 <? code)%N then
-              (if (2147483647 <? code)%N then crash OverflowError else crash ValueError)   (* chr(code) *)
+              err (Some start) 27                    (* code > 0x10FFFF: ScannerError (was chr() ValueError/OverflowError before the fix) *)
             else forward len ;;; fs_non_spaces f double start (chunks ++ [code])
         | None =>
             if mem e breaks then
